@@ -93,7 +93,7 @@ def models(draw, with_groups=True, with_systems=True, with_offset=True, max_unit
     if draw(st.booleans()):
         dims.append({"name": "[xspeed]", "expr": {base[0][1]: 1, base[1][1]: -1}})
     layout = {"perm": draw(st.permutations(list(range(len(units) + len(prefixes))))), "style": draw(st.integers(0, 5)), "comments": draw(st.booleans()),
-              "spacing": draw(st.integers(0, 2))}
+              "spacing": draw(st.integers(0, 2)), "header_ws": draw(st.sampled_from([" ", " ", "  ", "\t", "   ", " \t"]))}
     return {"base": [list(b) for b in base], "units": units, "prefixes": prefixes, "offsets": offsets, "groups": groups, "systems": systems, "dims": dims, "layout": layout, "defaults": defaults}
 
 
@@ -221,13 +221,15 @@ def render(model, *, permute=True, split_import=False):
     blocks = []
     umap = {u["name"]: u for u in model["units"]}
     for g in model["groups"]:
-        head = f"@group {g['name']}" + (f" using {', '.join(g['using'])}" if g["using"] else "")
+        hw = lay.get("header_ws", " ")  # column-aligned headers: any run of blanks / tabs separates the words of a block header
+        head = f"@group{hw}{g['name']}" + (f"{hw}using{hw}{', '.join(g['using'])}" if g["using"] else "")
         blocks.append(head)
         for m in g["members"]:
             blocks.append("    " + unit_line(model, umap[m], style))
         blocks.append("@end")
     for s in model["systems"]:
-        head = f"@system {s['name']}" + (f" using {', '.join(s['using'])}" if s["using"] else "")
+        hw = lay.get("header_ws", " ")
+        head = f"@system{hw}{s['name']}" + (f"{hw}using{hw}{', '.join(s['using'])}" if s["using"] else "")
         blocks.append(head)
         for new, old in s["rules"]:
             blocks.append(f"    {new}: {old}" if old else f"    {new}")
